@@ -1226,6 +1226,12 @@ def check_dask_tables(prog, rep, m, entry):
             n += 1
             rep.add('Z6a', m, entry, "_DASK_STATS[%r] = %s" % (key, norm(mv)), mv.lineno, okm,
                     'block partials of %r must be merged by np.%s over the block axis (axis=0)' % (key, want))
+            extra = [k_.arg for k_ in mb.keywords if k_.arg not in ('axis',)] if isinstance(mb, ast.Call) else []
+            if extra or (isinstance(mb, ast.Call) and len(mb.args) > 1):
+                n += 1
+                rep.add('Z6c', m, entry, "_DASK_STATS[%r] = %s" % (key, norm(mv)), mv.lineno, False,
+                        'a zone with no valid cell in any block must stay NaN as on the numpy path: with `%s` the reduction of an '
+                        'all-NaN column is that identity element (-inf / inf / 0), not NaN' % (extra[0] if extra else 'a second argument'))
     return n
 
 
